@@ -97,6 +97,10 @@ def enc_float(x):
         return "+inf"
     if x == -math.inf:
         return "-inf"
+    if x == 0 and math.copysign(1.0, x) < 0:
+        # the model's finite floats are exact rationals: it has one zero (outside the modelled universe; the oracles on
+        # the real code still see -0.0)
+        raise Unencodable("negative zero")
     fr = Fraction(x)
     return ["f", fr.numerator, fr.denominator]
 
